@@ -197,6 +197,17 @@ class GGen:
             return ("pred", r.choice([0, 0, 2, 3, 3, 1]))
         if c < 0.42:
             return ("state", 0)
+        if c < 0.435:
+            # a repetition / option whose body is a capture and a separator, no rule reference: an abandoned
+            # iteration has completed its capture; the action that follows must not see it
+            self.haspush = True
+            self.nact += 1
+            return ("seq", [(r.choice(["star", "q", "plus"]), ("seq", [("push", self.term()), self.term()])), ("act", self.nact - 1)])
+        if c < 0.45:
+            # a capture, then one that may complete on the empty string, read by the action that follows
+            self.haspush = True
+            self.nact += 1
+            return ("seq", [("push", self.term()), ("push", (r.choice(["star", "q"]), self.term())), ("act", self.nact - 1)])
         if c < 0.50:
             return ("seq", [self.any(depth - 1, rank, head and i == 0) for i in range(r.randint(2, 3))])
         if c < 0.62:
@@ -277,9 +288,14 @@ class GGenBT:
         letters = list(ALPHA)
         r.shuffle(letters)
         letters = letters[:r.choice([1, 2, 2, 3])]      # few letters: different token rules match the same text
+        nullable = set()
         for i in range(nt):
             c = letters[i % len(letters)]
             body = ("chr", c) if r.random() < 0.6 else (("cls", False, False, [("r", c, min(c + 1, 100))]) if r.random() < 0.6 else ("dot",))
+            if i > 0 and r.random() < 0.25:
+                # a rule that can match the empty string (re-entered at the same offset it leaves a zero-width token)
+                body = (r.choice(["star", "q"]), ("chr", c))
+                nullable.add("T%d" % i)
             if r.random() < 0.4:
                 body = ("push", body)
             if r.random() < 0.4:
@@ -293,16 +309,36 @@ class GGenBT:
                 items[-1] = ("q", items[-1])
             if r.random() < 0.3:
                 items.append(self.act())
+            if all(x[0] == "q" or (x[0] == "name" and x[1] in nullable) or x[0] == "act" for x in items):
+                nullable.add("M%d" % j)
             body = ("seq", items) if len(items) > 1 else items[0]
+            if r.random() < 0.3:
+                # a repetition / option over "captured item, separator" with no rule reference in its body, then an
+                # action: the capture of an abandoned iteration must be gone when the action runs
+                c = r.choice(letters)
+                item = ("push", ("plus", ("chr", c))) if r.random() < 0.5 else ("push", ("chr", c))
+                op = r.choice(["star", "q", "plus"])
+                body = ("seq", [(op, ("seq", [item, ("chr", r.choice([0x3A, 0x2C]))])), self.act()])
+                if op == "plus":
+                    nullable.discard("M%d" % j)
+                else:
+                    nullable.add("M%d" % j)
             if r.random() < 0.25:
                 body = ("push", body)
             if body[0] in ("q", "act"):
-                body = ("seq", [r.choice(pool), body])
+                first = r.choice(pool)
+                body = ("seq", [first, body])
+                if first[1] not in nullable:
+                    nullable.discard("M%d" % j)
             if r.random() < 0.35:
                 # a choice whose alternatives share their first reference: X Y / X  or  X 'c' / X
                 x = r.choice(pool)
                 second = r.choice(pool) if r.random() < 0.5 else ("chr", r.choice(ALPHA))
                 body = ("alt", [("seq", [x, second]), x if r.random() < 0.7 else ("seq", [x, self.act()])])
+                if x[1] in nullable:
+                    nullable.add("M%d" % j)
+                else:
+                    nullable.discard("M%d" % j)
             mids.append(("M%d" % j, body))
         pool = [("name", n) for n, _ in mids] + [("name", n) for n, _ in toks]
         alts = []
@@ -310,7 +346,12 @@ class GGenBT:
             pre = [r.choice(pool) for _ in range(r.randint(1, 2))]
             if alts and r.random() < 0.45:
                 pre = list(r.choice(alts)[1][:-1])          # same prefix as an earlier alternative, other tail
-                pre = [x for x in pre if x[0] == "name"] or [r.choice(pool)]
+                pre = [x for x in pre if x[0] in ("name", "chr")]
+                if not pre or pre[0][0] != "name":
+                    pre = [r.choice(pool)] + pre
+            if len(pre) >= 1 and r.random() < 0.35:
+                # a bare literal inside the prefix: what follows starts beyond the end of every token recorded so far
+                pre.insert(r.randint(1, len(pre)), ("chr", r.choice([0x3A, 0x2C])))
             if r.random() < 0.35:
                 # lookahead over a sequence whose prefix succeeds (leaving rule, capture and action tokens
                 # behind) before its last element decides: nothing of it may survive the lookahead
@@ -324,7 +365,9 @@ class GGenBT:
             tail = ("chr", r.choice([0x78, 0x79, 0x7A]))
             alts.append(("seq", pre + [tail]))
         if r.random() < 0.5:
-            alts.append(r.choice(pool))
+            solid = [x for x in pool if x[1] not in nullable]
+            if solid:
+                alts.append(r.choice(solid))
         top = ("alt", alts)
         if r.random() < 0.5:
             top = ("plus", top)
